@@ -336,3 +336,1412 @@ fn part_d_large() -> DOut {
         })
         .reduce(DOut::default, DOut::merge)
 }
+
+// ------------------------------------------------------------------------------------------------
+// shared: the sequential lock table (reference for parts S and T)
+// ------------------------------------------------------------------------------------------------
+const TIMEOUT_MS: u64 = 1000;
+const STEP_MS: i64 = 600; // 1 step: still held; 2 steps: expired (never on the boundary)
+const KEYS: [&str; 2] = ["a", "b"];
+fn keyset(ks: u8) -> Vec<String> {
+    let v: &[&str] = match ks {
+        0 => &["a"],
+        1 => &["b"],
+        2 => &["a", "b"],
+        _ => &["b", "a"],
+    };
+    v.iter().map(|s| (*s).to_string()).collect()
+}
+
+/// key -> (owner, handle, acquired at [ms, relative]); entries whose age exceeds the timeout do not
+/// block anybody. Expired entries that the implementation may or may not still store are never
+/// compared.
+#[derive(Clone, Debug, Default)]
+struct RefTable {
+    locks: BTreeMap<String, (u64, u64, u64)>,
+    now: u64,
+}
+impl RefTable {
+    fn live(&self, e: &(u64, u64, u64)) -> bool {
+        self.now.saturating_sub(e.2) <= TIMEOUT_MS
+    }
+    fn holder(&self, k: &str) -> Option<(u64, u64)> {
+        self.locks.get(k).filter(|e| self.live(e)).map(|e| (e.0, e.1))
+    }
+    /// (key, holder) for every requested key held by another unexpired transaction, in request order
+    fn blockers(&self, tx: u64, keys: &[String]) -> Vec<(String, u64)> {
+        keys.iter()
+            .filter_map(|k| {
+                if selftest() && k == "b" {
+                    return None; // corrupted reference: nobody ever holds "b"
+                }
+                self.holder(k).filter(|h| h.0 != tx).map(|h| (k.clone(), h.0))
+            })
+            .collect()
+    }
+    fn grant(&mut self, tx: u64, keys: &[String], handle: u64) {
+        for k in keys {
+            self.locks.insert(k.clone(), (tx, handle, self.now));
+        }
+    }
+    fn release_tx(&mut self, tx: u64) {
+        self.locks.retain(|_, e| e.0 != tx);
+    }
+    fn release_handle(&mut self, h: u64) -> Option<u64> {
+        let tx = self.locks.values().find(|e| e.1 == h).map(|e| e.0);
+        self.locks.retain(|_, e| e.1 != h);
+        tx
+    }
+    fn cleanup(&mut self) -> BTreeSet<u64> {
+        let now = self.now;
+        let dead: BTreeSet<u64> = self.locks.values().filter(|e| now.saturating_sub(e.2) > TIMEOUT_MS).map(|e| e.0).collect();
+        self.locks.retain(|_, e| now.saturating_sub(e.2) <= TIMEOUT_MS);
+        dead
+    }
+    fn live_map(&self) -> BTreeMap<String, (u64, u64)> {
+        self.locks.iter().filter(|(_, e)| self.live(e)).map(|(k, e)| (k.clone(), (e.0, e.1))).collect()
+    }
+}
+
+/// Compare the real lock table with the reference (only what the reference defines).
+/// Returns the number of stale reverse-index entries seen (information, not a verdict).
+fn check_lm_obs(lm: &LockManager, rf: &RefTable, txs: &[u64]) -> Result<u64, (String, String)> {
+    let snap = lm.to_serializable();
+    let want = rf.live_map();
+    let mut live = 0usize;
+    for k in KEYS {
+        let holder = lm.lock_holder(k);
+        let locked = lm.is_locked(k);
+        if locked != holder.is_some() {
+            return Err(("c12:table:is_locked-disagrees-with-lock_holder".into(), format!("key {k}: is_locked={locked} lock_holder={holder:?}")));
+        }
+        let w = want.get(k);
+        if holder != w.map(|x| x.0) {
+            return Err(("c12:table:holder-differs-from-reference".into(), format!("key {k}: lock_holder={holder:?}, sequential lock table says {:?}", w.map(|x| x.0))));
+        }
+        if let (Some(w), Some(e)) = (w, snap.locks().get(k)) {
+            live += 1;
+            if e.lock_handle != w.1 || e.tx_id != w.0 {
+                return Err(("c12:table:entry-differs-from-reference".into(), format!("key {k}: stored (tx {}, handle {}), reference (tx {}, handle {})", e.tx_id, e.lock_handle, w.0, w.1)));
+            }
+        }
+    }
+    if lm.active_lock_count() < live {
+        return Err(("c12:table:active_lock_count-below-held-keys".into(), format!("active_lock_count={} but {live} keys are held", lm.active_lock_count())));
+    }
+    let mut stale = 0;
+    for &t in txs {
+        let idx: BTreeSet<String> = lm.keys_for_transaction(t).into_iter().collect();
+        for (k, (owner, _)) in &want {
+            if *owner == t && !idx.contains(k) {
+                return Err(("c12:table:tx-index-misses-held-key".into(), format!("tx {t} holds {k} but keys_for_transaction({t}) = {idx:?} (release({t}) would leave it behind)")));
+            }
+        }
+        stale += idx.iter().filter(|k| snap.locks().get(*k).is_none_or(|e| e.tx_id != t)).count() as u64;
+    }
+    Ok(stale)
+}
+fn absent_from_graph(g: &WaitForGraph, tx: u64, txs: &[u64]) -> Result<(), (String, String)> {
+    if !g.waiting_for(tx).is_empty() {
+        return Err(("c12:graph:finished-tx-still-waiter".into(), format!("tx {tx} is done but still waits for {:?}", g.waiting_for(tx))));
+    }
+    let mut waiters: BTreeSet<u64> = g.waiting_on(tx).into_iter().collect();
+    waiters.extend(txs.iter().filter(|x| g.waiting_for(**x).contains(&tx)));
+    if !waiters.is_empty() {
+        return Err(("c12:graph:finished-tx-still-holder".into(), format!("tx {tx} is done but {waiters:?} still wait for it")));
+    }
+    Ok(())
+}
+
+// ------------------------------------------------------------------------------------------------
+// Part S — every lock / release / expire / serialize-restore sequence
+// ------------------------------------------------------------------------------------------------
+#[derive(Clone, Debug, PartialEq, Eq, Hash, Serialize, Deserialize)]
+enum SOp {
+    /// try_lock(tx, key set)
+    Lock(u8, u8),
+    /// try_lock_with_wait_tracking(tx, key set)
+    LockWT(u8, u8),
+    Release(u8),
+    /// release_by_handle(latest (0) / previous (1) handle granted to tx)
+    RelH(u8, u8),
+    /// release_by_handle_with_wait_cleanup(..)
+    RelHWC(u8, u8),
+    Cleanup,
+    CleanupWC,
+    /// clock + 600 ms (lock timeout 1000 ms)
+    Advance,
+    /// to_serializable -> bitcode -> from_serializable
+    SerRestore,
+}
+const STX: [u64; 3] = [1, 2, 3];
+fn s_alphabet() -> Vec<SOp> {
+    let mut v = vec![];
+    for t in 0..3u8 {
+        for k in 0..3u8 {
+            v.push(SOp::LockWT(t, k));
+        }
+    }
+    for t in 0..3u8 {
+        for k in 0..3u8 {
+            v.push(SOp::Lock(t, k));
+        }
+    }
+    for t in 0..3u8 {
+        v.push(SOp::Release(t));
+    }
+    for t in 0..3u8 {
+        for s in 0..2u8 {
+            v.push(SOp::RelHWC(t, s));
+            v.push(SOp::RelH(t, s));
+        }
+    }
+    v.extend([SOp::Advance, SOp::CleanupWC, SOp::Cleanup, SOp::SerRestore]);
+    v
+}
+struct SeqState {
+    lm: LockManager,
+    g: WaitForGraph,
+    rf: RefTable,
+    handles: [Vec<u64>; 3],
+    stale: u64,
+    grants: u64,
+    refusals: u64,
+    expiries: u64,
+}
+fn s_fresh() -> SeqState {
+    tclock::reset();
+    SeqState { lm: LockManager::with_default_timeout(Duration::from_millis(TIMEOUT_MS)), g: WaitForGraph::new(), rf: RefTable::default(), handles: Default::default(), stale: 0, grants: 0, refusals: 0, expiries: 0 }
+}
+fn lm_observation(lm: &LockManager, now: u64) -> String {
+    let snap = lm.to_serializable();
+    let mut entries: Vec<String> = snap.locks().iter().map(|(k, e)| format!("{k}:{}:{}:{}:{}", e.tx_id, e.lock_handle, (BASE_MS + now).saturating_sub(e.acquired_at_ms), e.timeout_ms)).collect();
+    entries.sort();
+    let idx: Vec<(u64, Vec<String>)> = STX.iter().map(|t| (*t, lm.keys_for_transaction(*t))).collect();
+    format!("{entries:?}|{idx:?}|{}|{:?}", lm.active_lock_count(), lm.default_timeout)
+}
+/// Ok(false) = operation not enabled in this state
+fn s_apply(st: &mut SeqState, op: &SOp) -> Result<bool, (String, String)> {
+    let mut finished: Vec<u64> = vec![];
+    let mut released_tx: Option<u64> = None;
+    let mut released_handle: Option<u64> = None;
+    let mut cleaned = false;
+    match op {
+        SOp::Lock(t, k) | SOp::LockWT(t, k) => {
+            let tx = STX[*t as usize];
+            let keys = keyset(*k);
+            let bl = st.rf.blockers(tx, &keys);
+            let wt = matches!(op, SOp::LockWT(..));
+            let res: Result<u64, (u64, Option<Vec<String>>)> = if wt { st.lm.try_lock_with_wait_tracking(tx, &keys, &st.g, None).map_err(|w| (w.blocking_tx_id, Some(w.conflicting_keys))) } else { st.lm.try_lock(tx, &keys).map_err(|h| (h, None)) };
+            match res {
+                Ok(h) => {
+                    if !bl.is_empty() {
+                        return Err(("c12:table:granted-while-held".into(), format!("tx {tx} was granted {keys:?} although {bl:?} are held by others")));
+                    }
+                    st.rf.grant(tx, &keys, h);
+                    st.handles[*t as usize].push(h);
+                    st.grants += 1;
+                    if wt && !st.g.waiting_for(tx).is_empty() {
+                        return Err(("c12:graph:granted-tx-still-waiter".into(), format!("tx {tx} got its locks but still waits for {:?}", st.g.waiting_for(tx))));
+                    }
+                }
+                Err((blocker, ck)) => {
+                    st.refusals += 1;
+                    if bl.is_empty() {
+                        return Err(("c12:table:refused-without-holder".into(), format!("tx {tx} was refused {keys:?} (conflict with {blocker}) although no requested key is held by another unexpired transaction")));
+                    }
+                    if !bl.iter().any(|b| b.1 == blocker) {
+                        return Err(("c12:table:conflict-names-wrong-holder".into(), format!("refusal names tx {blocker}; holders of the requested keys are {bl:?}")));
+                    }
+                    if let Some(ck) = ck {
+                        if ck != bl.iter().map(|b| b.0.clone()).collect::<Vec<_>>() {
+                            return Err(("c12:table:conflict-names-wrong-keys".into(), format!("conflicting_keys = {ck:?}, held by others: {bl:?}")));
+                        }
+                    }
+                }
+            }
+        }
+        SOp::Release(t) => {
+            let tx = STX[*t as usize];
+            st.lm.release(tx);
+            st.rf.release_tx(tx);
+            released_tx = Some(tx);
+        }
+        SOp::RelH(t, s) | SOp::RelHWC(t, s) => {
+            let hs = &st.handles[*t as usize];
+            if hs.len() <= *s as usize {
+                return Ok(false);
+            }
+            let h = hs[hs.len() - 1 - *s as usize];
+            let found = st.rf.release_handle(h);
+            if matches!(op, SOp::RelHWC(..)) {
+                st.lm.release_by_handle_with_wait_cleanup(h, &st.g);
+                finished.extend(found);
+            } else {
+                st.lm.release_by_handle(h);
+            }
+            released_handle = Some(h);
+        }
+        SOp::Cleanup => {
+            st.lm.cleanup_expired();
+            st.expiries += st.rf.cleanup().len() as u64;
+            cleaned = true;
+        }
+        SOp::CleanupWC => {
+            st.lm.cleanup_expired_with_wait_cleanup(&st.g);
+            let dead = st.rf.cleanup();
+            st.expiries += dead.len() as u64;
+            finished.extend(dead);
+            cleaned = true;
+        }
+        SOp::Advance => {
+            tclock::advance(STEP_MS);
+            st.rf.now += STEP_MS as u64;
+        }
+        SOp::SerRestore => {
+            let before = lm_observation(&st.lm, st.rf.now);
+            let bytes = bitcode::serialize(&st.lm.to_serializable()).map_err(|e| ("c12:table:serialize-fails".to_string(), e.to_string()))?;
+            let back: SerializableLockState = bitcode::deserialize(&bytes).map_err(|e| ("c12:table:deserialize-fails".to_string(), e.to_string()))?;
+            st.lm = LockManager::from_serializable(back);
+            let after = lm_observation(&st.lm, st.rf.now);
+            if before != after {
+                return Err(("c12:table:serialize-restore-changes-state".into(), format!("before {before} after {after}")));
+            }
+        }
+    }
+    st.stale += check_lm_obs(&st.lm, &st.rf, &STX)?;
+    let snap = st.lm.to_serializable();
+    if let Some(tx) = released_tx {
+        if let Some((k, _)) = snap.locks().iter().find(|(_, e)| e.tx_id == tx) {
+            return Err(("c12:table:lock-left-behind-by-release".into(), format!("after release({tx}) key {k} is still owned by it")));
+        }
+        if !st.lm.keys_for_transaction(tx).is_empty() {
+            return Err(("c12:table:lock-left-behind-by-release".into(), format!("after release({tx}) keys_for_transaction = {:?}", st.lm.keys_for_transaction(tx))));
+        }
+    }
+    if let Some(h) = released_handle {
+        if let Some((k, _)) = snap.locks().iter().find(|(_, e)| e.lock_handle == h) {
+            return Err(("c12:table:lock-left-behind-by-release_by_handle".into(), format!("after release_by_handle({h}) key {k} still carries that handle")));
+        }
+    }
+    if cleaned && snap.locks().len() != st.rf.live_map().len() {
+        return Err(("c12:table:expired-lock-left-behind-by-cleanup".into(), format!("after cleanup {} entries are stored, {} keys are held", snap.locks().len(), st.rf.live_map().len())));
+    }
+    check_graph_obs(&st.g, &STX)?;
+    for tx in finished {
+        absent_from_graph(&st.g, tx, &STX)?;
+    }
+    Ok(true)
+}
+/// the real state up to renaming of handles and shifting of time
+fn s_canon(st: &SeqState) -> String {
+    let snap = st.lm.to_serializable();
+    let slot = |h: u64| -> String {
+        let mut s = String::new();
+        for (t, hs) in st.handles.iter().enumerate() {
+            for sl in 0..2 {
+                if hs.len() > sl && hs[hs.len() - 1 - sl] == h {
+                    s.push_str(&format!("{t}.{sl} "));
+                }
+            }
+        }
+        s
+    };
+    let mut entries: Vec<String> = snap.locks().iter().map(|(k, e)| format!("{k}:{}:{}:{}", e.tx_id, (BASE_MS + st.rf.now).saturating_sub(e.acquired_at_ms).min(2 * STEP_MS as u64), slot(e.lock_handle))).collect();
+    entries.sort();
+    let idx: Vec<Vec<String>> = STX.iter().map(|t| st.lm.keys_for_transaction(*t)).collect();
+    let (f, r) = observed_edges(&st.g, &STX);
+    let ws: Vec<bool> = STX.iter().map(|t| st.g.get_wait_start(*t).is_some()).collect();
+    let have: Vec<usize> = st.handles.iter().map(|h| h.len().min(2)).collect();
+    format!("{entries:?}|{idx:?}|{f:?}|{r:?}|{ws:?}|{have:?}")
+}
+#[derive(Default)]
+struct SeqOut {
+    states: u64,
+    transitions: u64,
+    stale_index_observations: u64,
+    grants: u64,
+    refusals: u64,
+    expiries: u64,
+    per_level: Vec<u64>,
+    violations: Vec<Viol>,
+    viol_total: u64,
+    deepest: Vec<SOp>,
+}
+fn s_replay(hist: &[SOp]) -> (SeqState, Result<bool, (String, String)>) {
+    let mut st = s_fresh();
+    for op in hist {
+        match s_apply(&mut st, op) {
+            Ok(true) => {}
+            other => return (st, other),
+        }
+    }
+    (st, Ok(true))
+}
+fn part_s(depth: usize) -> SeqOut {
+    let alpha = s_alphabet();
+    let mut seen: HashSet<String> = HashSet::new();
+    seen.insert(s_canon(&s_fresh()));
+    let mut frontier: Vec<Vec<SOp>> = vec![vec![]];
+    let mut out = SeqOut { states: 1, ..Default::default() };
+    for _ in 0..depth {
+        type R = (Vec<SOp>, String, Option<(String, String)>, [u64; 4]);
+        let results: Vec<R> = frontier
+            .par_iter()
+            .flat_map_iter(|hist| {
+                let mut v: Vec<R> = vec![];
+                for op in &alpha {
+                    let (mut st, r) = s_replay(hist);
+                    assert!(matches!(r, Ok(true)), "frontier history must replay");
+                    let r = s_apply(&mut st, op);
+                    let mut h2 = hist.clone();
+                    h2.push(op.clone());
+                    match r {
+                        Ok(false) => {}
+                        Ok(true) => v.push((h2, s_canon(&st), None, [st.stale, st.grants, st.refusals, st.expiries])),
+                        Err(e) => v.push((h2, String::new(), Some(e), [0; 4])),
+                    }
+                }
+                v
+            })
+            .collect();
+        let mut next = vec![];
+        for (hist, key, verdict, c) in results {
+            out.transitions += 1;
+            if let Some((sig, msg)) = verdict {
+                out.viol_total += 1;
+                if out.violations.iter().filter(|x| x.0 == sig).count() < 3 {
+                    out.violations.push((sig, format!("after {hist:?}: {msg}"), json!({"part": "S", "ops": hist})));
+                }
+                continue;
+            }
+            if seen.insert(key) {
+                out.states += 1;
+                out.stale_index_observations += u64::from(c[0] > 0);
+                out.grants += c[1];
+                out.refusals += c[2];
+                out.expiries += c[3];
+                out.deepest = hist.clone();
+                next.push(hist);
+            }
+        }
+        out.per_level.push(next.len() as u64);
+        frontier = next;
+    }
+    out
+}
+
+// ------------------------------------------------------------------------------------------------
+// shared: coordinator helpers
+// ------------------------------------------------------------------------------------------------
+fn new_coordinator() -> DistributedTxCoordinator {
+    DistributedTxCoordinator::new(ConsensusManager::new(ConsensusConfig::default()), DistributedTxConfig::default())
+}
+/// prepare request of transaction `label` for `shard`; every (tx, shard) has its own orthogonal
+/// delta so that the semantic (embedding) conflict path never interferes with key locking
+fn prepare_request(tx_id: u64, label: u8, shard: u8, ks: u8) -> PrepareRequest {
+    let mut dense = vec![0.0f32; 8];
+    dense[(label as usize * 2 + shard as usize) % 8] = 1.0;
+    PrepareRequest { tx_id, coordinator: "n1".into(), operations: keyset(ks).into_iter().map(|key| Transaction::Put { key, data: vec![1] }).collect(), delta_embedding: SparseVector::from_dense(&dense), timeout_ms: 5000 }
+}
+#[derive(Clone, Debug, PartialEq, Serialize, Deserialize)]
+enum VoteKind {
+    Yes(u64),
+    Conflict(u64),
+    No,
+}
+fn vote_kind(v: &PrepareVote) -> VoteKind {
+    match v {
+        PrepareVote::Yes { lock_handle, .. } => VoteKind::Yes(*lock_handle),
+        PrepareVote::Conflict { conflicting_tx, .. } => VoteKind::Conflict(*conflicting_tx),
+        _ => VoteKind::No,
+    }
+}
+const TX_TIMEOUT_STEP_MS: i64 = 6000; // DistributedTxConfig::default().prepare_timeout_ms = 5000; lock timeout 30 s
+
+// ------------------------------------------------------------------------------------------------
+// Part K — every sequence of coordinator operations
+// ------------------------------------------------------------------------------------------------
+#[derive(Clone, Debug, PartialEq, Eq, Hash, Serialize, Deserialize)]
+enum KOp {
+    /// handle_prepare(tx, shard, key set); the vote is now "in flight"
+    Prep(u8, u8, u8),
+    /// deliver the in-flight vote: record_vote
+    Vote(u8, u8),
+    Commit(u8),
+    Abort(u8),
+    /// clock + 6 s, cleanup_timeouts()
+    Timeout,
+    /// release_orphaned_locks(now + 1)
+    Orphan,
+}
+/// transaction 0 spans shards 0 and 1, transaction 1 only shard 0
+const KPARTS: [&[usize]; 2] = [&[0, 1], &[0]];
+fn k_alphabet() -> Vec<KOp> {
+    let mut v = vec![];
+    for (t, parts) in KPARTS.iter().enumerate() {
+        for s in *parts {
+            for k in 0..3u8 {
+                v.push(KOp::Prep(t as u8, *s as u8, k));
+            }
+        }
+    }
+    for (t, parts) in KPARTS.iter().enumerate() {
+        for s in *parts {
+            v.push(KOp::Vote(t as u8, *s as u8));
+        }
+    }
+    for t in 0..2u8 {
+        v.push(KOp::Abort(t));
+        v.push(KOp::Commit(t));
+    }
+    v.extend([KOp::Timeout, KOp::Orphan]);
+    v
+}
+struct KState {
+    co: DistributedTxCoordinator,
+    ids: [u64; 2],
+    flight: BTreeMap<(u8, u8), PrepareVote>,
+    prepared: BTreeSet<(u8, u8)>,
+    /// handle -> (tx label, vote recorded by the coordinator?)
+    grants: BTreeMap<u64, (u8, bool)>,
+    finished: [bool; 2],
+    /// reference: key -> label of the unfinished transaction that was granted it
+    held: BTreeMap<String, u8>,
+    now: u64,
+    yes: u64,
+    conflicts: u64,
+    spurious_refusals: u64,
+    finishes: u64,
+}
+fn k_fresh() -> KState {
+    tclock::reset();
+    let co = new_coordinator();
+    let a = co.begin(&"n1".to_string(), KPARTS[0]).expect("begin").tx_id;
+    let b = co.begin(&"n1".to_string(), KPARTS[1]).expect("begin").tx_id;
+    KState { co, ids: [a, b], flight: BTreeMap::new(), prepared: BTreeSet::new(), grants: BTreeMap::new(), finished: [false; 2], held: BTreeMap::new(), now: 0, yes: 0, conflicts: 0, spurious_refusals: 0, finishes: 0 }
+}
+fn k_finish(st: &mut KState, t: u8) {
+    st.finished[t as usize] = true;
+    st.finishes += 1;
+    st.held.retain(|_, l| *l != t);
+}
+fn k_apply(st: &mut KState, op: &KOp) -> Result<bool, (String, String)> {
+    let label = |st: &KState, id: u64| st.ids.iter().position(|x| *x == id).map_or("?".to_string(), |i| ["A", "B"][i].to_string());
+    match op {
+        KOp::Prep(t, s, k) => {
+            if st.finished[*t as usize] || st.prepared.contains(&(*t, *s)) {
+                return Ok(false);
+            }
+            st.prepared.insert((*t, *s));
+            let keys = keyset(*k);
+            let vote = st.co.handle_prepare(&prepare_request(st.ids[*t as usize], *t, *s, *k));
+            let others: Vec<(String, u8)> = keys.iter().filter_map(|key| if selftest() && key == "b" { Some((key.clone(), 9)) } else { st.held.get(key).filter(|l| **l != *t).map(|l| (key.clone(), *l)) }).collect();
+            match vote_kind(&vote) {
+                VoteKind::Yes(h) => {
+                    st.yes += 1;
+                    if !others.is_empty() {
+                        return Err(("c12:coord:granted-while-held".into(), format!("prepare of {} on {keys:?} voted Yes although {others:?} (key, owner) are held by unfinished transactions", ["A", "B"][*t as usize])));
+                    }
+                    for key in &keys {
+                        st.held.insert(key.clone(), *t);
+                    }
+                    st.grants.insert(h, (*t, false));
+                }
+                VoteKind::Conflict(c) => {
+                    st.conflicts += 1;
+                    if others.is_empty() {
+                        st.spurious_refusals += 1;
+                    } else if !others.iter().any(|o| st.ids.get(o.1 as usize) == Some(&c)) {
+                        return Err(("c12:coord:conflict-names-wrong-holder".into(), format!("Conflict vote names {} but the requested keys are held by {others:?}", label(st, c))));
+                    }
+                }
+                VoteKind::No => {}
+            }
+            st.flight.insert((*t, *s), vote);
+        }
+        KOp::Vote(t, s) => {
+            let Some(vote) = st.flight.remove(&(*t, *s)) else { return Ok(false) };
+            let kind = vote_kind(&vote);
+            if st.co.record_vote(st.ids[*t as usize], *s as usize, vote).is_ok() {
+                if let VoteKind::Yes(h) = kind {
+                    if let Some(g) = st.grants.get_mut(&h) {
+                        g.1 = true;
+                    }
+                }
+            }
+        }
+        KOp::Commit(t) | KOp::Abort(t) => {
+            if st.finished[*t as usize] {
+                return Ok(false);
+            }
+            let ok = if matches!(op, KOp::Commit(_)) { st.co.commit(st.ids[*t as usize]).is_ok() } else { st.co.abort(st.ids[*t as usize], "client abort").is_ok() };
+            if ok {
+                k_finish(st, *t);
+            }
+        }
+        KOp::Timeout => {
+            tclock::advance(TX_TIMEOUT_STEP_MS);
+            st.now += TX_TIMEOUT_STEP_MS as u64;
+            assert!(st.now < 30_000, "part K must stay below the 30 s lock timeout");
+            let timed_out = st.co.cleanup_timeouts();
+            for t in 0..2u8 {
+                if timed_out.contains(&st.ids[t as usize]) && !st.finished[t as usize] {
+                    k_finish(st, t);
+                }
+            }
+        }
+        KOp::Orphan => {
+            st.co.release_orphaned_locks(BASE_MS + st.now + 1);
+        }
+    }
+    // --- what must hold now
+    let snap = st.co.lock_manager().to_serializable();
+    for t in 0..2u8 {
+        if !st.finished[t as usize] {
+            continue;
+        }
+        let id = st.ids[t as usize];
+        if let Some((k, e)) = snap.locks().iter().find(|(_, e)| e.tx_id == id) {
+            let recorded = st.grants.get(&e.lock_handle).is_some_and(|g| g.1);
+            return Err((format!("c12:coord:finished-tx-keeps-lock:{}", if recorded { "vote-recorded" } else { "vote-not-recorded" }), format!("transaction {} is finished (committed / aborted / timed out) but still owns key {k} (handle {}, expires only after 30 s)", ["A", "B"][t as usize], e.lock_handle)));
+        }
+    }
+    for k in KEYS {
+        let real = st.co.lock_manager().lock_holder(k);
+        let want = st.held.get(k).map(|l| st.ids[*l as usize]);
+        if real != want {
+            return Err(("c12:coord:lock-table-differs-from-reference".into(), format!("key {k}: lock_holder = {}, reference owner = {}", real.map_or("none".into(), |x| label(st, x)), want.map_or("none".into(), |x| label(st, x)))));
+        }
+    }
+    check_graph_obs(st.co.wait_graph(), &st.ids).map_err(|(s, m)| (s.replace("c12:graph", "c12:coord:graph"), m))?;
+    for t in 0..2u8 {
+        if st.finished[t as usize] {
+            absent_from_graph(st.co.wait_graph(), st.ids[t as usize], &st.ids).map_err(|(s, m)| (s.replace("c12:graph:", "c12:coord:wait-graph:"), m.replace(&format!("tx {}", st.ids[t as usize]), &format!("transaction {}", ["A", "B"][t as usize]))))?;
+        }
+    }
+    Ok(true)
+}
+#[derive(Default)]
+struct KOut {
+    sequences: u64,
+    steps: u64,
+    yes: u64,
+    conflicts: u64,
+    spurious_refusals: u64,
+    finishes: u64,
+    distinct_end_states: BTreeSet<String>,
+    violations: Vec<Viol>,
+    viol_total: u64,
+    sample: Vec<KOp>,
+}
+impl KOut {
+    fn merge(mut self, o: KOut) -> KOut {
+        self.sequences += o.sequences;
+        self.steps += o.steps;
+        self.yes += o.yes;
+        self.conflicts += o.conflicts;
+        self.spurious_refusals += o.spurious_refusals;
+        self.finishes += o.finishes;
+        self.distinct_end_states.extend(o.distinct_end_states);
+        self.viol_total += o.viol_total;
+        for v in o.violations {
+            // keep the shortest reproductions
+            self.violations.push(v);
+        }
+        self.violations.sort_by_key(|v| (v.0.clone(), v.2["ops"].as_array().map_or(0, Vec::len)));
+        let mut kept: Vec<Viol> = vec![];
+        for v in std::mem::take(&mut self.violations) {
+            if kept.iter().filter(|x| x.0 == v.0).count() < 3 {
+                kept.push(v);
+            }
+        }
+        self.violations = kept;
+        if o.sample.len() > self.sample.len() {
+            self.sample = o.sample;
+        }
+        self
+    }
+}
+fn k_end_state(st: &KState) -> String {
+    let phase = |t: usize| st.co.get(st.ids[t]).map(|x| format!("{:?}/{}", x.phase, x.votes.len()));
+    let (f, _) = observed_edges(st.co.wait_graph(), &st.ids);
+    let lab = |id: u64| st.ids.iter().position(|x| *x == id);
+    format!("{:?}|{:?}|{:?}|{:?}|{:?}|{:?}", st.held, st.finished, phase(0), phase(1), f.iter().map(|(a, b)| (lab(*a), lab(*b))).collect::<Vec<_>>(), st.flight.keys().collect::<Vec<_>>())
+}
+/// depth-first over all sequences (no dedup: a sequence is a replay from a fresh coordinator);
+/// a violating sequence is reported once and not extended
+fn k_dfs(hist: &mut Vec<KOp>, depth: usize, alpha: &[KOp], out: &mut KOut) {
+    if hist.len() == depth {
+        return;
+    }
+    for op in alpha {
+        let mut st = k_fresh();
+        let mut ok = true;
+        for h in hist.iter() {
+            ok &= matches!(k_apply(&mut st, h), Ok(true));
+        }
+        assert!(ok, "prefix must replay");
+        match k_apply(&mut st, op) {
+            Ok(false) => {}
+            Ok(true) => {
+                hist.push(op.clone());
+                out.sequences += 1;
+                out.steps += hist.len() as u64;
+                if hist.len() == depth {
+                    out.yes += st.yes;
+                    out.conflicts += st.conflicts;
+                    out.spurious_refusals += st.spurious_refusals;
+                    out.finishes += st.finishes;
+                    out.distinct_end_states.insert(k_end_state(&st));
+                    if out.sample.is_empty() && st.finishes > 0 && st.conflicts > 0 {
+                        out.sample = hist.clone();
+                    }
+                }
+                k_dfs(hist, depth, alpha, out);
+                hist.pop();
+            }
+            Err((sig, msg)) => {
+                hist.push(op.clone());
+                out.sequences += 1;
+                out.steps += hist.len() as u64;
+                out.viol_total += 1;
+                out.violations.push((sig, format!("after {hist:?}: {msg}"), json!({"part": "K", "ops": hist.clone(), "transactions": "0 = A (shards 0,1), 1 = B (shard 0); key sets 0={a} 1={b} 2={a,b}"})));
+                *out = std::mem::take(out).merge(KOut::default());
+                hist.pop();
+            }
+        }
+    }
+}
+fn part_k(depth: usize) -> KOut {
+    let alpha = k_alphabet();
+    // partition by the first two operations
+    let mut prefixes: Vec<Vec<KOp>> = vec![];
+    for a in &alpha {
+        for b in &alpha {
+            prefixes.push(vec![a.clone(), b.clone()]);
+        }
+    }
+    let mut top = KOut::default();
+    // sequences of length 1 and 2 themselves
+    k_dfs(&mut vec![], 2.min(depth), &alpha, &mut top);
+    if depth <= 2 {
+        return top;
+    }
+    let rest = prefixes
+        .par_iter()
+        .fold(KOut::default, |mut out, p| {
+            let mut st = k_fresh();
+            if p.iter().all(|h| matches!(k_apply(&mut st, h), Ok(true))) {
+                k_dfs(&mut p.clone(), depth, &alpha, &mut out);
+            }
+            out
+        })
+        .reduce(KOut::default, KOut::merge);
+    // `top` counted end states at depth 2 only for its own bookkeeping; keep its violations and counts
+    let mut t = top.merge(rest);
+    t.distinct_end_states.retain(|_| true);
+    t
+}
+
+// ------------------------------------------------------------------------------------------------
+// Part T — real threads under the scheduler
+// ------------------------------------------------------------------------------------------------
+#[derive(Clone, Debug, PartialEq, Serialize, Deserialize)]
+enum TOp {
+    // ---- LockManager + WaitForGraph level (tx = 1..3)
+    Lock { tx: u8, ks: u8 },
+    LockWT { tx: u8, ks: u8 },
+    Release { tx: u8 },
+    /// release_by_handle_with_wait_cleanup(idx-th handle granted to tx)
+    RelH { tx: u8, idx: u8 },
+    CleanupWC,
+    Advance(i64),
+    /// lock_holder(KEYS[k])
+    Holder(u8),
+    // ---- coordinator level (tx = label 0..)
+    /// handle_prepare; the vote is parked ("in flight")
+    HandlePrepare { tx: u8, shard: u8, ks: u8 },
+    /// record_vote(parked vote)
+    Vote { tx: u8, shard: u8 },
+    /// commit if the transaction is Prepared, otherwise abort (skipped if it is gone)
+    Finish { tx: u8 },
+    Abort { tx: u8 },
+    /// cleanup_timeouts()
+    Timeouts,
+    /// release_orphaned_locks(now + 1)
+    Orphans,
+}
+#[derive(Clone, Debug, PartialEq, Serialize, Deserialize)]
+enum TRes {
+    Granted(u64),
+    Refused { blocker: u64, keys: Option<Vec<String>> },
+    Released(u64),
+    Unit,
+    Skipped,
+    Count(usize),
+    HolderIs(Option<u64>),
+    Voted(VoteKind),
+    Recorded(Result<String, String>),
+    Finished { how: String, ok: bool },
+    TimedOut(Vec<u8>),
+}
+#[derive(Clone, Debug, Serialize, Deserialize)]
+struct Ev {
+    thread: usize,
+    op: TOp,
+    call: i64,
+    ret: i64,
+    res: TRes,
+}
+#[derive(Clone, Debug, Serialize, Deserialize)]
+struct Program {
+    name: String,
+    /// "lm" or "co"
+    level: String,
+    /// co: participants of each transaction
+    txs: Vec<Vec<usize>>,
+    /// executed one after the other before the threads start
+    pre: Vec<TOp>,
+    /// co: clock advance after `pre`
+    pre_advance: i64,
+    threads: Vec<Vec<TOp>>,
+}
+
+// ---------------------------------------------------------------- LockManager level
+struct LmCtx {
+    lm: LockManager,
+    g: WaitForGraph,
+    handles: Mutex<BTreeMap<u8, Vec<u64>>>,
+    hist: Mutex<Vec<Ev>>,
+}
+fn lm_exec(c: &LmCtx, op: &TOp) -> TRes {
+    match op {
+        TOp::Lock { tx, ks } | TOp::LockWT { tx, ks } => {
+            let keys = keyset(*ks);
+            let r = if matches!(op, TOp::LockWT { .. }) { c.lm.try_lock_with_wait_tracking(u64::from(*tx), &keys, &c.g, None).map_err(|w| (w.blocking_tx_id, Some(w.conflicting_keys))) } else { c.lm.try_lock(u64::from(*tx), &keys).map_err(|h| (h, None)) };
+            match r {
+                Ok(h) => {
+                    c.handles.lock().unwrap().entry(*tx).or_default().push(h);
+                    TRes::Granted(h)
+                }
+                Err((blocker, keys)) => TRes::Refused { blocker, keys },
+            }
+        }
+        TOp::Release { tx } => {
+            c.lm.release(u64::from(*tx));
+            TRes::Unit
+        }
+        TOp::RelH { tx, idx } => {
+            let h = c.handles.lock().unwrap().get(tx).and_then(|v| v.get(*idx as usize).copied());
+            match h {
+                Some(h) => {
+                    c.lm.release_by_handle_with_wait_cleanup(h, &c.g);
+                    TRes::Released(h)
+                }
+                None => TRes::Skipped,
+            }
+        }
+        TOp::CleanupWC => TRes::Count(c.lm.cleanup_expired_with_wait_cleanup(&c.g)),
+        TOp::Advance(ms) => {
+            env::clock_advance_ms(*ms);
+            TRes::Unit
+        }
+        TOp::Holder(k) => TRes::HolderIs(c.lm.lock_holder(KEYS[*k as usize])),
+        _ => unreachable!("coordinator operation in a LockManager program"),
+    }
+}
+/// one step of the sequential lock table; None = this result is impossible here
+fn lin_step(rf: &RefTable, ev: &Ev) -> Option<RefTable> {
+    let mut r = rf.clone();
+    match (&ev.op, &ev.res) {
+        (TOp::Lock { tx, ks } | TOp::LockWT { tx, ks }, res) => {
+            let keys = keyset(*ks);
+            let bl = r.blockers(u64::from(*tx), &keys);
+            match res {
+                TRes::Granted(h) if bl.is_empty() => r.grant(u64::from(*tx), &keys, *h),
+                TRes::Refused { blocker, keys: ck } if !bl.is_empty() && bl.iter().any(|b| b.1 == *blocker) && ck.as_ref().is_none_or(|ck| *ck == bl.iter().map(|b| b.0.clone()).collect::<Vec<_>>()) => {}
+                _ => return None,
+            }
+        }
+        (TOp::Release { tx }, _) => r.release_tx(u64::from(*tx)),
+        (TOp::RelH { .. }, TRes::Released(h)) => {
+            r.release_handle(*h);
+        }
+        (TOp::RelH { .. }, _) => {}
+        (TOp::CleanupWC, _) => {
+            r.cleanup();
+        }
+        (TOp::Advance(ms), _) => r.now += *ms as u64,
+        (TOp::Holder(k), TRes::HolderIs(h)) => {
+            if r.holder(KEYS[*k as usize]).map(|x| x.0) != *h {
+                return None;
+            }
+        }
+        _ => return None,
+    }
+    Some(r)
+}
+fn linearizable(init: &RefTable, evs: &[Ev]) -> bool {
+    fn rec(m: &RefTable, evs: &[Ev], done: &mut Vec<bool>, left: usize) -> bool {
+        if left == 0 {
+            return true;
+        }
+        for i in 0..evs.len() {
+            if done[i] || (0..evs.len()).any(|j| !done[j] && j != i && evs[j].ret < evs[i].call) {
+                continue;
+            }
+            if let Some(m2) = lin_step(m, &evs[i]) {
+                done[i] = true;
+                if rec(&m2, evs, done, left - 1) {
+                    return true;
+                }
+                done[i] = false;
+            }
+        }
+        false
+    }
+    rec(init, evs, &mut vec![false; evs.len()], evs.len())
+}
+fn norm_res(r: &TRes) -> String {
+    match r {
+        TRes::Granted(_) => "granted".into(),
+        TRes::Released(_) => "released".into(),
+        TRes::Voted(VoteKind::Yes(_)) => "yes".into(),
+        TRes::Voted(VoteKind::Conflict(_)) => "conflict".into(),
+        other => format!("{other:?}"),
+    }
+}
+type Exec = (Vec<Body>, Box<dyn FnOnce(&RunResult) -> Verdict>);
+
+fn mk_lm(p: &Program) -> Exec {
+    env::clock_reset();
+    let ctx = Arc::new(LmCtx { lm: LockManager::with_default_timeout(Duration::from_millis(TIMEOUT_MS)), g: WaitForGraph::new(), handles: Mutex::new(BTreeMap::new()), hist: Mutex::new(vec![]) });
+    let mut init = RefTable::default();
+    let mut pre_bad = None;
+    for op in &p.pre {
+        let res = lm_exec(&ctx, op);
+        let ev = Ev { thread: 99, op: op.clone(), call: 0, ret: 0, res };
+        match lin_step(&init, &ev) {
+            Some(r) => init = r,
+            None => pre_bad = Some(format!("{ev:?}")),
+        }
+    }
+    let mut bodies: Vec<Body> = vec![];
+    for (t, ops) in p.threads.iter().enumerate() {
+        let (ctx, ops) = (ctx.clone(), ops.clone());
+        bodies.push(Box::new(move || {
+            for op in &ops {
+                let call = vsched::stamp() as i64;
+                let res = lm_exec(&ctx, op);
+                let ret = vsched::stamp() as i64;
+                ctx.hist.lock().unwrap().push(Ev { thread: t, op: op.clone(), call, ret, res });
+            }
+        }));
+    }
+    let prog = p.clone();
+    let check = Box::new(move |_r: &RunResult| {
+        let evs = ctx.hist.lock().unwrap().clone();
+        let txs: Vec<u64> = vec![1, 2, 3];
+        let holders: Vec<Option<u64>> = KEYS.iter().map(|k| ctx.lm.lock_holder(k)).collect();
+        let (fwd, _) = observed_edges(&ctx.g, &txs);
+        let outcome = format!("{:?}|{holders:?}|{fwd:?}", evs.iter().map(|e| (e.thread, norm_res(&e.res))).collect::<Vec<_>>());
+        let show = || evs.iter().map(|e| format!("T{} {:?} [{}..{}] -> {:?}", e.thread, e.op, e.call, e.ret, e.res)).collect::<Vec<_>>();
+        if let Some(b) = &pre_bad {
+            return Verdict { outcome, violation: Some(format!("c12:conc:pre-state-impossible|{b}")) };
+        }
+        if !linearizable(&init, &evs) {
+            return Verdict { outcome, violation: Some(format!("c12:conc:lock-table-history-not-linearizable|no sequential order of these calls on a lock table explains their results: {:?}", show())) };
+        }
+        // the state at quiescence must be the one some linearization ends in
+        let mut evs2 = evs.clone();
+        let mut stamp = evs.iter().map(|e| e.ret).max().unwrap_or(0) + 1;
+        for (i, h) in holders.iter().enumerate() {
+            evs2.push(Ev { thread: 98, op: TOp::Holder(i as u8), call: stamp, ret: stamp + 1, res: TRes::HolderIs(*h) });
+            stamp += 2;
+        }
+        if !linearizable(&init, &evs2) {
+            return Verdict { outcome, violation: Some(format!("c12:conc:final-lock-table-not-explained|holders at quiescence {holders:?} after {:?}", show())) };
+        }
+        if let Err((s, m)) = check_graph_obs(&ctx.g, &txs) {
+            return Verdict { outcome, violation: Some(format!("{}|{m}; history {:?}", s.replace("c12:", "c12:conc:"), show())) };
+        }
+        // a transaction whose every granted handle was released with wait cleanup, as its last
+        // operations, is finished (only in programs without expiry: then the release found the lock)
+        let expiry = prog.threads.iter().flatten().chain(prog.pre.iter()).any(|o| matches!(o, TOp::Advance(_)));
+        if !expiry {
+            for tx in 1..=3u8 {
+                let granted = ctx.handles.lock().unwrap().get(&tx).map_or(0, Vec::len);
+                let mine: Vec<&Ev> = evs.iter().filter(|e| matches!(&e.op, TOp::Lock { tx: t, .. } | TOp::LockWT { tx: t, .. } | TOp::Release { tx: t } | TOp::RelH { tx: t, .. } if *t == tx)).collect();
+                let released = mine.iter().filter(|e| matches!(e.res, TRes::Released(_))).count();
+                let last_release = mine.iter().filter(|e| matches!(e.res, TRes::Released(_))).map(|e| e.call).min();
+                let locks_after = mine.iter().any(|e| matches!(e.op, TOp::Lock { .. } | TOp::LockWT { .. }) && last_release.is_some_and(|c| e.ret > c));
+                if granted > 0 && released == granted && !locks_after {
+                    if let Err((s, m)) = absent_from_graph(&ctx.g, u64::from(tx), &txs) {
+                        return Verdict { outcome, violation: Some(format!("{}|{m}; history {:?}", s.replace("c12:", "c12:conc:"), show())) };
+                    }
+                }
+            }
+        }
+        Verdict { outcome, violation: None }
+    });
+    (bodies, check)
+}
+
+// ---------------------------------------------------------------- coordinator level
+struct CoCtx {
+    co: DistributedTxCoordinator,
+    ids: Vec<u64>,
+    flight: Mutex<BTreeMap<(u8, u8), PrepareVote>>,
+    hist: Mutex<Vec<Ev>>,
+}
+fn lab(i: usize) -> String {
+    ((b'A' + i as u8) as char).to_string()
+}
+fn co_exec(c: &CoCtx, op: &TOp) -> TRes {
+    match op {
+        TOp::HandlePrepare { tx, shard, ks } => {
+            let vote = c.co.handle_prepare(&prepare_request(c.ids[*tx as usize], *tx, *shard, *ks));
+            let kind = vote_kind(&vote);
+            c.flight.lock().unwrap().insert((*tx, *shard), vote);
+            TRes::Voted(kind)
+        }
+        TOp::Vote { tx, shard } => {
+            let vote = c.flight.lock().unwrap().remove(&(*tx, *shard));
+            match vote {
+                Some(v) => TRes::Recorded(c.co.record_vote(c.ids[*tx as usize], *shard as usize, v).map(|p| format!("{p:?}")).map_err(|e| format!("{e:?}").split(['(', '{', ' ']).next().unwrap_or("").to_string())),
+                None => TRes::Skipped,
+            }
+        }
+        TOp::Finish { tx } => {
+            let id = c.ids[*tx as usize];
+            match c.co.get(id).map(|t| t.phase) {
+                Some(TxPhase::Prepared) => TRes::Finished { how: "commit".into(), ok: c.co.commit(id).is_ok() },
+                Some(_) => TRes::Finished { how: "abort".into(), ok: c.co.abort(id, "not prepared").is_ok() },
+                None => TRes::Skipped,
+            }
+        }
+        TOp::Abort { tx } => TRes::Finished { how: "abort".into(), ok: c.co.abort(c.ids[*tx as usize], "client abort").is_ok() },
+        TOp::Timeouts => {
+            let t = c.co.cleanup_timeouts();
+            let mut l: Vec<u8> = (0..c.ids.len() as u8).filter(|i| t.contains(&c.ids[*i as usize])).collect();
+            l.sort_unstable();
+            TRes::TimedOut(l)
+        }
+        TOp::Orphans => {
+            #[allow(clippy::cast_possible_truncation)]
+            let now = std::time::SystemTime::now().duration_since(std::time::UNIX_EPOCH).unwrap().as_millis() as u64;
+            TRes::Count(c.co.release_orphaned_locks(now + 1))
+        }
+        TOp::Holder(k) => TRes::HolderIs(c.co.lock_manager().lock_holder(KEYS[*k as usize]).map(|id| c.ids.iter().position(|x| *x == id).map_or(99, |i| i as u64))),
+        _ => unreachable!("LockManager operation in a coordinator program"),
+    }
+}
+fn op_tx(op: &TOp) -> Option<u8> {
+    match op {
+        TOp::HandlePrepare { tx, .. } | TOp::Vote { tx, .. } | TOp::Finish { tx } | TOp::Abort { tx } => Some(*tx),
+        _ => None,
+    }
+}
+/// quiescent verdict of one coordinator execution
+fn check_co(c: &CoCtx, evs: &[Ev]) -> (String, Option<String>) {
+    let n = c.ids.len();
+    let snap = c.co.lock_manager().to_serializable();
+    let g = c.co.wait_graph();
+    let label_of = |id: u64| c.ids.iter().position(|x| *x == id).map_or_else(|| format!("?{id}"), lab);
+    let (fwd, _) = observed_edges(g, &c.ids);
+    let mut table: Vec<(String, String)> = snap.locks().iter().map(|(k, e)| (k.clone(), label_of(e.tx_id))).collect();
+    table.sort();
+    let outcome = format!("{:?}|{table:?}|{:?}", evs.iter().filter(|e| e.thread != 99).map(|e| (e.thread, norm_res(&e.res))).collect::<Vec<_>>(), fwd.iter().map(|(a, b)| (label_of(*a), label_of(*b))).collect::<Vec<_>>());
+    let show = || evs.iter().map(|e| format!("T{} {:?} [{}..{}] -> {}", e.thread, e.op, e.call, e.ret, norm_res(&e.res))).collect::<Vec<_>>();
+    // when was each transaction finished (call stamp of the first operation that finished it)?
+    let mut finish_call: Vec<Option<i64>> = vec![None; n];
+    for e in evs {
+        let done: Vec<u8> = match (&e.op, &e.res) {
+            (TOp::Finish { tx } | TOp::Abort { tx }, TRes::Finished { ok: true, .. }) => vec![*tx],
+            (_, TRes::TimedOut(l)) => l.clone(),
+            _ => vec![],
+        };
+        for t in done {
+            let f = &mut finish_call[t as usize];
+            *f = Some(f.map_or(e.call, |x| x.min(e.call)));
+        }
+    }
+    // grants: (tx, shard, handle, keys, call, ret)
+    let grants: Vec<(u8, u8, u64, Vec<String>, i64, i64)> = evs.iter().filter_map(|e| match (&e.op, &e.res) { (TOp::HandlePrepare { tx, shard, ks }, TRes::Voted(VoteKind::Yes(h))) => Some((*tx, *shard, *h, keyset(*ks), e.call, e.ret)), _ => None }).collect();
+    for (tx, shard, h, keys, _, ret) in &grants {
+        let Some(fc) = finish_call[*tx as usize] else { continue };
+        if *ret < fc {
+            if let Some((k, _)) = snap.locks().iter().find(|(_, e)| e.lock_handle == *h) {
+                let recorded = evs.iter().any(|e| matches!((&e.op, &e.res), (TOp::Vote { tx: t, shard: s }, TRes::Recorded(Ok(_))) if t == tx && s == shard) && e.call < fc);
+                return (outcome, Some(format!("c12:coord:finished-tx-keeps-lock:{}|transaction {} was granted {keys:?} (handle {h}) before it was finished, and still owns {k} at quiescence (until the 30 s lock timeout); history {:?}", if recorded { "vote-recorded" } else { "vote-not-recorded" }, lab(*tx as usize), show())));
+            }
+        }
+    }
+    // exclusivity: g2 granted strictly after g1 on a common key, although nothing that could have
+    // released g1 had even started
+    for g1 in &grants {
+        for g2 in &grants {
+            if g1.0 == g2.0 || g1.5 >= g2.4 {
+                continue;
+            }
+            // selftest corruption: every two key sets are taken to collide
+            if !selftest() && !g1.3.iter().any(|k| g2.3.contains(k)) {
+                continue;
+            }
+            let releaser = evs.iter().any(|e| e.call < g2.5 && e.ret > g1.5 && match (&e.op, &e.res) {
+                (TOp::Finish { tx } | TOp::Abort { tx }, _) => *tx == g1.0,
+                (TOp::Timeouts | TOp::Orphans, _) => true,
+                (TOp::HandlePrepare { tx, .. }, TRes::Voted(VoteKind::Conflict(_))) => *tx == g1.0,
+                _ => false,
+            });
+            if !releaser {
+                return (outcome, Some(format!("c12:coord:granted-while-held|{} was granted {:?} while {} still held {:?}; history {:?}", lab(g2.0 as usize), g2.3, lab(g1.0 as usize), g1.3, show())));
+            }
+        }
+    }
+    if let Err((s, m)) = check_graph_obs(g, &c.ids) {
+        return (outcome, Some(format!("{}|{m}; history {:?}", s.replace("c12:", "c12:coord:"), show())));
+    }
+    for t in 0..n {
+        let Some(fc) = finish_call[t] else { continue };
+        let all_prepares_before = evs.iter().all(|e| !matches!(&e.op, TOp::HandlePrepare { tx, .. } if *tx as usize == t) || e.ret < fc);
+        if all_prepares_before {
+            if let Err((s, m)) = absent_from_graph(g, c.ids[t], &c.ids) {
+                let m = c.ids.iter().enumerate().fold(m, |m, (i, id)| m.replace(&id.to_string(), &lab(i)));
+                return (outcome, Some(format!("{}|{m}; history {:?}", s.replace("c12:graph:", "c12:coord:wait-graph:"), show())));
+            }
+        }
+    }
+    (outcome, None)
+}
+fn mk_co(p: &Program) -> Exec {
+    env::clock_reset();
+    let co = new_coordinator();
+    let ids: Vec<u64> = p.txs.iter().map(|parts| co.begin(&"n1".to_string(), parts).expect("begin").tx_id).collect();
+    let ctx = Arc::new(CoCtx { co, ids, flight: Mutex::new(BTreeMap::new()), hist: Mutex::new(vec![]) });
+    for (i, op) in p.pre.iter().enumerate() {
+        let res = co_exec(&ctx, op);
+        let base = -1000 + 2 * i as i64;
+        ctx.hist.lock().unwrap().push(Ev { thread: 99, op: op.clone(), call: base, ret: base + 1, res });
+    }
+    env::clock_advance_ms(p.pre_advance);
+    let mut bodies: Vec<Body> = vec![];
+    for (t, ops) in p.threads.iter().enumerate() {
+        let (ctx, ops) = (ctx.clone(), ops.clone());
+        bodies.push(Box::new(move || {
+            for op in &ops {
+                let call = vsched::stamp() as i64;
+                let res = co_exec(&ctx, op);
+                let ret = vsched::stamp() as i64;
+                ctx.hist.lock().unwrap().push(Ev { thread: t, op: op.clone(), call, ret, res });
+            }
+        }));
+    }
+    let check = Box::new(move |_r: &RunResult| {
+        let evs = ctx.hist.lock().unwrap().clone();
+        let (outcome, violation) = check_co(&ctx, &evs);
+        Verdict { outcome, violation }
+    });
+    (bodies, check)
+}
+fn mk_exec(p: &Program) -> Exec {
+    if p.level == "lm" {
+        mk_lm(p)
+    } else {
+        mk_co(p)
+    }
+}
+
+fn programs(thorough: bool) -> Vec<Program> {
+    let lm = |name: &str, pre: Vec<TOp>, threads: Vec<Vec<TOp>>| Program { name: name.into(), level: "lm".into(), txs: vec![], pre, pre_advance: 0, threads };
+    let co = |name: &str, txs: Vec<Vec<usize>>, pre: Vec<TOp>, pre_advance: i64, threads: Vec<Vec<TOp>>| Program { name: name.into(), level: "co".into(), txs, pre, pre_advance, threads };
+    let lock = |tx, ks| TOp::Lock { tx, ks };
+    let lwt = |tx, ks| TOp::LockWT { tx, ks };
+    let relh = |tx, idx| TOp::RelH { tx, idx };
+    let hp = |tx, shard, ks| TOp::HandlePrepare { tx, shard, ks };
+    let vote = |tx, shard| TOp::Vote { tx, shard };
+    let fin = |tx| TOp::Finish { tx };
+    let mut v = vec![
+        lm("lm: {a,b} || {b,a}, each released by handle", vec![], vec![vec![lwt(1, 2), relh(1, 0)], vec![lwt(2, 3), relh(2, 0)]]),
+        lm("lm: a then b || b then a (wait-for cycle)", vec![], vec![vec![lwt(1, 0), lwt(1, 1)], vec![lwt(2, 1), lwt(2, 0)]]),
+        lm("lm: try_lock+release || try_lock+lock_holder", vec![], vec![vec![lock(1, 0), TOp::Release { tx: 1 }], vec![lock(2, 0), TOp::Holder(0)]]),
+        lm("lm: waiter retries || holder releases", vec![lock(1, 0)], vec![vec![lwt(2, 0), lwt(2, 0)], vec![relh(1, 0)]]),
+        lm("lm: expiry sweep || contender", vec![lock(1, 0)], vec![vec![TOp::Advance(1200), TOp::CleanupWC], vec![lwt(2, 0), TOp::Holder(0)]]),
+        lm("lm: holder with two handles releases || waiter on both keys", vec![lwt(1, 0), lwt(1, 1)], vec![vec![relh(1, 0), relh(1, 1)], vec![lwt(2, 2), lwt(2, 1)]]),
+        lm("lm: 3 threads, two holders release || one waiter", vec![lock(1, 0), lock(2, 1)], vec![vec![lwt(3, 2)], vec![relh(1, 0)], vec![relh(2, 0)]]),
+        lm("lm: 3 threads contend for one key", vec![], vec![vec![lock(1, 0)], vec![lwt(2, 0)], vec![lock(3, 0), TOp::Holder(0)]]),
+        co("co: two single-shard transactions on one key", vec![vec![0], vec![0]], vec![], 0, vec![vec![hp(0, 0, 0), vote(0, 0), fin(0)], vec![hp(1, 0, 0), vote(1, 0), fin(1)]]),
+        co("co: winner stays prepared, loser aborts", vec![vec![0], vec![0]], vec![], 0, vec![vec![hp(0, 0, 0), vote(0, 0)], vec![hp(1, 0, 0), vote(1, 0), fin(1)]]),
+        co("co: timeout sweep || prepare whose vote is in flight", vec![vec![0], vec![0]], vec![], TX_TIMEOUT_STEP_MS, vec![vec![hp(1, 0, 0), vote(1, 0), fin(1)], vec![TOp::Timeouts]]),
+        co("co: abort || delivery of the second shard's vote", vec![vec![0, 1]], vec![hp(0, 0, 0), vote(0, 0), hp(0, 1, 1)], 0, vec![vec![vote(0, 1)], vec![TOp::Abort { tx: 0 }]]),
+        co("co: commit || orphan sweep", vec![vec![0]], vec![hp(0, 0, 0), vote(0, 0)], 0, vec![vec![fin(0)], vec![TOp::Orphans, TOp::Holder(0)]]),
+        co("co: timeout sweep || orphan sweep", vec![vec![0]], vec![hp(0, 0, 0), vote(0, 0)], TX_TIMEOUT_STEP_MS, vec![vec![TOp::Timeouts], vec![TOp::Orphans, TOp::Holder(0)]]),
+        co("co: prepare || orphan sweep", vec![vec![0], vec![0]], vec![hp(1, 0, 1), vote(1, 0)], 0, vec![vec![hp(0, 0, 0), vote(0, 0)], vec![TOp::Orphans, TOp::Holder(0)]]),
+        co("co: cross-shard opposite order", vec![vec![0, 1], vec![0, 1]], vec![], 0, vec![vec![hp(0, 0, 0), hp(0, 1, 1), vote(0, 0), vote(0, 1), fin(0)], vec![hp(1, 0, 1), hp(1, 1, 0), vote(1, 0), vote(1, 1), fin(1)]]),
+    ];
+    if thorough {
+        v.push(lm("lm: expiry takeover || owner refreshes", vec![lock(1, 0)], vec![vec![TOp::Advance(1200), lwt(2, 0)], vec![lwt(1, 0), TOp::Holder(0)]]));
+        v.push(lm("lm: 3 threads, wait-for ring a,b,a", vec![], vec![vec![lwt(1, 0), lwt(1, 1)], vec![lwt(2, 1), lwt(2, 0)], vec![lwt(3, 2)]]));
+        v.push(co("co: 3 single-shard transactions on one key", vec![vec![0], vec![0], vec![0]], vec![], 0, vec![vec![hp(0, 0, 0), vote(0, 0), fin(0)], vec![hp(1, 0, 0), vote(1, 0), fin(1)], vec![hp(2, 0, 0), vote(2, 0), fin(2)]]));
+        v.push(co("co: two transactions || timeout sweep (3 threads)", vec![vec![0], vec![0]], vec![], TX_TIMEOUT_STEP_MS, vec![vec![hp(0, 0, 0), vote(0, 0)], vec![hp(1, 0, 0), vote(1, 0)], vec![TOp::Timeouts]]));
+    }
+    v
+}
+
+#[derive(Default, Serialize, Deserialize)]
+struct WStats {
+    programs: u64,
+    executions: u64,
+    sched_points: u64,
+    max_points: usize,
+    by_preemptions: BTreeMap<usize, u64>,
+    distinct_outcomes: u64,
+    single_outcome_programs: Vec<String>,
+    per_program: Vec<Value>,
+    violations: Vec<nvc::report::ViolationRec>,
+    violation_total: u64,
+    sample: Option<Value>,
+    machinery: Option<String>,
+}
+fn op_kinds(p: &Program) -> String {
+    let kinds: BTreeSet<&str> = p.threads.iter().flatten().map(|o| match o {
+        TOp::Lock { .. } => "try_lock",
+        TOp::LockWT { .. } => "try_lock_with_wait_tracking",
+        TOp::Release { .. } => "release",
+        TOp::RelH { .. } => "release_by_handle",
+        TOp::CleanupWC => "cleanup_expired",
+        TOp::Advance(_) | TOp::Holder(_) => "",
+        TOp::HandlePrepare { .. } => "handle_prepare",
+        TOp::Vote { .. } => "record_vote",
+        TOp::Finish { .. } => "commit/abort",
+        TOp::Abort { .. } => "abort",
+        TOp::Timeouts => "cleanup_timeouts",
+        TOp::Orphans => "release_orphaned_locks",
+    }).filter(|s| !s.is_empty()).collect();
+    kinds.into_iter().collect::<Vec<_>>().join("+")
+}
+fn explore_program(p: &Program, bound: usize, st: &mut WStats) {
+    let stats = vsched::explore(&ExploreCfg { bound, part: (0, 1), max_execs: 4_000_000 }, || mk_exec(p));
+    st.programs += 1;
+    st.executions += stats.executions;
+    st.sched_points += stats.sched_points;
+    st.max_points = st.max_points.max(stats.max_points);
+    for (k, v) in &stats.by_preemptions {
+        *st.by_preemptions.entry(*k).or_default() += v;
+    }
+    st.distinct_outcomes += stats.outcomes.len() as u64;
+    if stats.outcomes.len() < 2 {
+        st.single_outcome_programs.push(p.name.clone());
+    }
+    st.per_program.push(json!({"program": p.name, "schedules": stats.executions, "distinct_outcomes": stats.outcomes.len(), "max_scheduling_points": stats.max_points, "violating_schedules": stats.violation_count, "deadlocked_schedules": stats.deadlocks}));
+    if let Some(m) = stats.machinery {
+        st.machinery.get_or_insert(format!("{}: {m}", p.name));
+    }
+    if stats.capped {
+        st.machinery.get_or_insert(format!("{}: execution cap hit", p.name));
+    }
+    st.violation_total += stats.violation_count;
+    for v in stats.violations {
+        let (sig, msg) = v.message.split_once('|').map_or(("c12:conc:thread-failure".to_string(), v.message.clone()), |(a, b)| (a.to_string(), b.to_string()));
+        let sig = if v.message.starts_with("deadlock") {
+            format!("c12:conc:deadlock:{}", op_kinds(p))
+        } else if v.message.starts_with("panic") {
+            format!("c12:conc:panic:{}", op_kinds(p))
+        } else {
+            sig
+        };
+        if st.violations.iter().filter(|x| x.signature == sig).count() < 3 {
+            st.violations.push(nvc::report::ViolationRec { signature: sig, message: format!("{}: {msg} (schedule {:?}, {} preemptions)", p.name, v.threads, v.preemptions), replay: json!({"part": "T", "program": p, "bound": bound, "choices": v.choices, "thread_schedule": v.threads}) });
+        }
+    }
+    if st.sample.is_none() {
+        st.sample = Some(json!({"part": "T", "program": p, "executions": stats.executions, "distinct_outcomes": stats.outcomes.len(), "first_schedule": stats.sample_schedule}));
+    }
+}
+fn worker(i: usize, n: usize, thorough: bool) {
+    vsched::quiet_panics();
+    vsched::set_thread_init(|t| env::set_thread_seed(t as u64 + 1));
+    let bound = if thorough { 3 } else { 2 };
+    let mut st = WStats::default();
+    for (idx, p) in programs(thorough).iter().enumerate() {
+        if idx % n != i {
+            continue;
+        }
+        explore_program(p, bound, &mut st);
+    }
+    par::emit_result(&st);
+}
+
+// ------------------------------------------------------------------------------------------------
+// replay of one stored case
+// ------------------------------------------------------------------------------------------------
+fn replay(rep: &mut Report, path: &str) {
+    let body: Value = serde_json::from_str(&std::fs::read_to_string(path).expect("replay file")).expect("replay json");
+    let r = body.get("replay").cloned().unwrap_or(body);
+    match r["part"].as_str().unwrap_or("") {
+        "D" => {
+            let n = r["n"].as_u64().unwrap() as usize;
+            let edges: Vec<(usize, usize)> = serde_json::from_value(r["edges_in_insertion_order"].clone()).unwrap();
+            let mut out = DOut::default();
+            check_detector_case(n, &edges, &mut out);
+            for (s, m, j) in out.viol {
+                rep.violation(s, m, j);
+            }
+        }
+        "S" => {
+            let ops: Vec<SOp> = serde_json::from_value(r["ops"].clone()).unwrap();
+            if let (_, Err((s, m))) = s_replay(&ops) {
+                rep.violation(s, m, r.clone());
+            }
+        }
+        "K" => {
+            let ops: Vec<KOp> = serde_json::from_value(r["ops"].clone()).unwrap();
+            let mut st = k_fresh();
+            for op in &ops {
+                if let Err((s, m)) = k_apply(&mut st, op) {
+                    rep.violation(s, m, r.clone());
+                    break;
+                }
+            }
+        }
+        "T" => {
+            vsched::quiet_panics();
+            vsched::set_thread_init(|t| env::set_thread_seed(t as u64 + 1));
+            let p: Program = serde_json::from_value(r["program"].clone()).unwrap();
+            let choices: Vec<usize> = serde_json::from_value(r["choices"].clone()).unwrap();
+            let (bodies, check) = mk_exec(&p);
+            let run = vsched::run(&choices, bodies);
+            if run.deadlock {
+                rep.violation(format!("c12:conc:deadlock:{}", op_kinds(&p)), format!("deadlock under schedule {:?}", run.thread_schedule()), r.clone());
+            } else if let Some((t, m)) = run.panics.first() {
+                rep.violation(format!("c12:conc:panic:{}", op_kinds(&p)), format!("thread {t}: {m}"), r.clone());
+            } else if let Some(v) = check(&run).violation {
+                let (s, m) = v.split_once('|').map_or(("c12:conc".to_string(), v.clone()), |(a, b)| (a.to_string(), b.to_string()));
+                rep.violation(s, m, r.clone());
+            }
+        }
+        other => rep.machinery(format!("unknown replay part {other:?}")),
+    }
+    rep.sample(json!({"replayed": path}));
+}
+
+fn main() {
+    env::require();
+    env::clock_freeze(BASE_S);
+    let args = nvc::Args::parse();
+    if args.rest.iter().any(|a| a == "--selftest") {
+        SELFTEST.store(true, Ordering::Relaxed);
+    }
+    if let Some((i, n)) = args.worker {
+        worker(i, n, args.thorough());
+        return;
+    }
+    let mut rep = Report::new("C12", "model_checking");
+    if let Some(path) = rep.args.replay.clone() {
+        replay(&mut rep, &path);
+        rep.finish();
+    }
+    let thorough = rep.thorough();
+    let bound = if thorough { 3 } else { 2 };
+    let (s_depth, k_depth) = if thorough { (7, 6) } else { (5, 5) };
+    rep.rule(&format!(
+        "D: every digraph without self-loops on 2..5 transactions (2^20 + smaller), each built through add_wait in canonical and reversed insertion order (+ rings / paths / two rings with every single chord on 6-8 transactions, not exhaustive): detect_cycles non-empty <=> transitive closure has a cycle, every reported cycle is a directed cycle, would_create_cycle <=> reachability for every ordered pair, DeadlockDetector::detect non-empty <=> cyclic and victim in its cycle for 4 policies. \
+         S: BFS over every sequence of <= {s_depth} operations of {{try_lock, try_lock_with_wait_tracking (3 txs x key sets a, b, ab), release, release_by_handle[_with_wait_cleanup] (latest/previous handle), cleanup_expired[_with_wait_cleanup], clock+600ms (timeout 1000ms), to_serializable->bitcode->from_serializable}} replayed on a fresh real LockManager+WaitForGraph, dedup on the real state modulo handle renaming/time shift; after every step the sequential lock table. \
+         K: every sequence of <= {k_depth} coordinator operations {{handle_prepare, record_vote of the in-flight vote, commit, abort, clock+6s & cleanup_timeouts, release_orphaned_locks}} on 2 transactions (A: shards 0,1; B: shard 0) and keys a,b. \
+         T: for each program (2-3 threads on one LockManager+WaitForGraph or one DistributedTxCoordinator) every schedule with <= {bound} preemptions (scheduling point = every parking_lot lock acquisition); LockManager level: brute-force linearizability against the sequential lock table + quiescent state; coordinator level: a finished transaction owns no key it was granted before finishing and is neither waiter nor holder in the wait-for graph, no grant while provably held, edges/reverse_edges mirror, detect_cycles <=> recorded edges, no deadlock. non-trivial = cyclic graphs + distinct sequential states + sequences with a finish + schedules with >= 1 preemption"
+    ));
+    rep.assume("interleavings at lock-acquisition granularity (all locks on the driven paths are parking_lot via sync_compat: LockManager.locks/tx_locks, WaitForGraph.*, coordinator pending/pending_aborts/abort_states; no std::sync, tokio::sync or Condvar); the LOCK_COUNTER and stats atomics are not scheduling points; weak memory orderings are not modelled");
+    rep.assume("a prepare that starts after (or overlaps) the operation finishing its transaction is outside the statement: only locks granted by a prepare that returned before the finishing call began must be gone");
+    rep.assume("expiry is never tested on the boundary (age == timeout); coordinator parts stay below the 30 s lock timeout");
+
+    // ---- D
+    let mut d = DOut::default();
+    for n in 2..=5usize {
+        d = d.merge(part_d_exhaustive(n));
+    }
+    let small_cases = d.cases;
+    d = d.merge(part_d_large());
+    for (s, m, j) in &d.viol {
+        rep.violation(s.clone(), m.clone(), j.clone());
+    }
+    rep.part("D", json!({"graphs_x_orders_up_to_5_txs": small_cases, "graphs_x_orders_6_to_8_txs_not_exhaustive": d.cases - small_cases, "cyclic": d.cyclic, "acyclic": d.acyclic, "cycles_reported_by_detect_cycles": d.cycles_reported, "oracle_comparisons": d.evals, "add_wait_calls": d.add_waits, "distinct_(policy,victim)_pairs": d.distinct_victims.len(), "violating_comparisons": d.viol_total}));
+    rep.sample(json!({"part": "D", "n": 3, "edges_in_insertion_order": [[0, 1], [1, 2], [2, 0]], "note": "3-ring: detect_cycles = one cycle of length 3, victim inside for all policies"}));
+    if d.cyclic == 0 || d.acyclic == 0 || d.distinct_victims.len() < 8 {
+        rep.machinery("vacuous: detector part saw no cyclic / no acyclic graphs or too few victims");
+    }
+    // ---- S
+    let s = part_s(s_depth);
+    for (sig, m, j) in &s.violations {
+        rep.violation(sig.clone(), m.clone(), j.clone());
+    }
+    rep.part("S", json!({"depth": s_depth, "alphabet": s_alphabet().len(), "distinct_states": s.states, "new_states_per_level": s.per_level, "transitions": s.transitions, "grants_on_paths": s.grants, "refusals_on_paths": s.refusals, "expiries_on_paths": s.expiries, "states_with_stale_reverse_index_entries(info)": s.stale_index_observations, "violating_transitions": s.viol_total}));
+    rep.sample(json!({"part": "S", "deepest_new_state_history": s.deepest}));
+    if s.states < 200 || s.refusals == 0 || s.expiries == 0 {
+        rep.machinery("vacuous: sequential lock-table part reached too few states / no refusal / no expiry");
+    }
+    // ---- K
+    let k = part_k(k_depth);
+    for (sig, m, j) in &k.violations {
+        rep.violation(sig.clone(), m.clone(), j.clone());
+    }
+    rep.part("K", json!({"depth": k_depth, "alphabet": k_alphabet().len(), "sequences": k.sequences, "steps_replayed": k.steps, "distinct_end_states": k.distinct_end_states.len(), "yes_votes": k.yes, "conflict_votes": k.conflicts, "conflict_votes_without_reference_holder(info)": k.spurious_refusals, "finishes": k.finishes, "violating_sequences_(not_extended)": k.viol_total}));
+    rep.sample(json!({"part": "K", "ops": k.sample}));
+    if k.sequences < 1000 || k.conflicts == 0 || k.finishes == 0 {
+        rep.machinery("vacuous: coordinator sequence part");
+    }
+    // ---- T
+    let progs = programs(thorough);
+    let results: Vec<WStats> = par::spawn_workers(par::worker_count().min(progs.len()), &[]);
+    let mut t = WStats::default();
+    for w in results {
+        t.programs += w.programs;
+        t.executions += w.executions;
+        t.sched_points += w.sched_points;
+        t.max_points = t.max_points.max(w.max_points);
+        for (k, v) in w.by_preemptions {
+            *t.by_preemptions.entry(k).or_default() += v;
+        }
+        t.distinct_outcomes += w.distinct_outcomes;
+        t.single_outcome_programs.extend(w.single_outcome_programs);
+        t.per_program.extend(w.per_program);
+        t.violation_total += w.violation_total;
+        for v in w.violations {
+            rep.violation(v.signature, v.message, v.replay);
+        }
+        if t.sample.is_none() {
+            t.sample = w.sample;
+        }
+        if let Some(m) = w.machinery {
+            rep.machinery(m);
+        }
+    }
+    let nontrivial: u64 = t.by_preemptions.iter().filter(|(k, _)| **k > 0).map(|(_, v)| *v).sum();
+    rep.add("states", d.cases + s.states + k.sequences + t.executions);
+    rep.add("transitions", d.add_waits + s.transitions + k.steps + t.sched_points);
+    rep.add("traces_validated_against_impl", d.cases + s.transitions + k.sequences + t.executions);
+    rep.add("evaluations", d.evals + s.transitions + k.sequences + t.executions);
+    rep.add("distinct_nontrivial", d.cyclic + s.states + k.distinct_end_states.len() as u64 + nontrivial);
+    t.per_program.sort_by_key(|v| v["program"].as_str().unwrap_or("").to_string());
+    rep.part("T", json!({"programs": t.programs, "preemption_bound": bound, "schedules_executed": t.executions, "scheduling_points": t.sched_points, "max_points_per_execution": t.max_points, "schedules_by_preemptions": t.by_preemptions, "distinct_outcomes_summed_over_programs": t.distinct_outcomes, "programs_with_a_single_outcome": t.single_outcome_programs, "violating_schedules": t.violation_total, "per_program": t.per_program}));
+    if let Some(x) = t.sample {
+        rep.sample(x);
+    }
+    if !t.single_outcome_programs.is_empty() {
+        rep.machinery(format!("vacuous: programs with a single outcome (nothing collided): {:?}", t.single_outcome_programs));
+    }
+    if selftest() {
+        // the corrupted references must alarm in every part; no evidence is written
+        let sigs: Vec<String> = rep.violations.iter().map(|v| v.signature.clone()).collect();
+        let need = [("D", "c12:detector:"), ("S", "c12:table:"), ("K", "c12:coord:granted-while-held"), ("T-lm", "c12:conc:lock-table-history-not-linearizable"), ("T-co", "c12:coord:granted-while-held")];
+        let mut ok = true;
+        for (part, prefix) in need {
+            let hit = sigs.iter().filter(|s| s.starts_with(prefix)).count();
+            println!("SELFTEST part {part}: {} ({hit} kept artefacts with signature {prefix}*)", if hit > 0 { "alarms" } else { "SILENT" });
+            ok &= hit > 0;
+        }
+        println!("SELFTEST total violating cases with corrupted references: {}", rep.violation_count());
+        std::process::exit(if ok { 0 } else { 2 });
+    }
+    rep.finish();
+}
